@@ -63,6 +63,12 @@ func mutateFontText(rng *rand.Rand, data []byte) []byte {
 		{"/FullName ", "/FullName /"},
 		{"/Weight ", "/Weight 5 def /Wt "},
 		{"/BlueValues ", "/BlueValues [] def /Bv "},
+		{"/Encoding StandardEncoding def", "/Encoding 0 array def"},
+		{"/Encoding StandardEncoding def", "/Encoding 5 array def"},
+		{"/Encoding StandardEncoding def", "/Encoding (none) def"},
+		{"/Encoding 256 array", "/Encoding 0 array def /EncodingWas 256 array"},
+		{"/FontMatrix [", "/FontMatrix [0.001 0 0 0.001 0 0] def /FontMatrixWas ["},
+		{"/FontBBox {", "/FontBBox [0 0 0 0] def /FontBBoxWas {"},
 	}
 	if rng.IntN(5) == 0 {
 		// a CharStrings (or Subrs-free) entry keyed by a string instead of a name
